@@ -671,3 +671,67 @@ func (c *Case) AllSkipped() bool {
 	}
 	return true
 }
+
+// Corpus: hand-built cases that always run first (witnesses of the decisions recorded in notes/C17.md).
+func (g *Gen) Corpus() []*Case {
+	var out []*Case
+	sg := func(m Member) signer { return signer{m.Addr, m.Priv} }
+	// A: conflicting / repeated operations on one block
+	{
+		c := &Case{Height: 33, K: 670, Lifespan: 3, SufHeight: 7, HasCands: true, Policy: policyVariant(0)}
+		for i := 0; i < 3; i++ {
+			c.Members = append(c.Members, Member{g.newIdent(), base.Height(i)})
+		}
+		c1, c2 := g.newIdent(), g.newIdent()
+		c.Cands = []Cand{{c1.Addr, c1.Pub(), 31, 35}, {c2.Addr, c2.Pub(), 32, 33}}
+		all := []signer{sg(c.Members[0]), sg(c.Members[1]), sg(c.Members[2])}
+		j2 := g.Join(c2.Addr, 32, append([]signer{{c2.Addr, c2.Priv}}, all...))
+		j1low := g.Join(c1.Addr, 31, append([]signer{{c1.Addr, c1.Priv}}, all[:2]...)) // 2 of 3 < 67%
+		j1 := g.Join(c1.Addr, 31, append(append([]signer{}, all...), signer{c1.Addr, c1.Priv}))
+		dj := g.Disjoin(c.Members[1].Addr, c.Members[1].Start, sg(c.Members[1]))
+		ex := g.Expel(c.Members[1].Addr, 30, 40, []signer{all[0], all[2]})
+		p1 := g.PolicyOp(policyVariant(1), all)
+		p2 := g.PolicyOp(policyVariant(2), all)
+		c.Ops = []Op{j2, j1low, j1, j1, dj, p1, p2, j2}
+		c.Expels = []Op{ex}
+		c.Prepare()
+		out = append(out, c)
+	}
+	// B: 100 members at 57.0%: 57 signs are exactly the threshold but the float test rejects them (false
+	// rejection, allowed by the only-if statement); 58 signs pass
+	{
+		c := &Case{Height: 12, K: 570, Lifespan: 3, SufHeight: 3, HasCands: true, Policy: policyVariant(0)}
+		for i := 0; i < 100; i++ {
+			c.Members = append(c.Members, Member{g.newIdent(), 1})
+		}
+		c1, c2 := g.newIdent(), g.newIdent()
+		c.Cands = []Cand{{c1.Addr, c1.Pub(), 10, 14}, {c2.Addr, c2.Pub(), 10, 14}}
+		var s57, s58 []signer
+		for i := 0; i < 58; i++ {
+			if i < 57 {
+				s57 = append(s57, sg(c.Members[i]))
+			}
+			s58 = append(s58, sg(c.Members[i]))
+		}
+		c.Ops = []Op{
+			g.Join(c1.Addr, 10, append([]signer{{c1.Addr, c1.Priv}}, s57...)),
+			g.Join(c2.Addr, 10, append([]signer{{c2.Addr, c2.Priv}}, s58...)),
+		}
+		c.Prepare()
+		out = append(out, c)
+	}
+	// C: every operation skipped: Writer.Manifest fails ("empty nodes"), no block
+	{
+		c := &Case{Height: 9, K: 670, Lifespan: 3, SufHeight: 2, HasCands: false, Policy: policyVariant(0)}
+		for i := 0; i < 2; i++ {
+			c.Members = append(c.Members, Member{g.newIdent(), 0})
+		}
+		o := g.Candidate(c.Members[0].Addr, c.Members[0].Pub(), []signer{sg(c.Members[0])})
+		o.Get = GetNotFound
+		ex := g.Expel(c.Members[1].Addr, 5, 12, []signer{sg(c.Members[0])})
+		c.Ops = []Op{o, ex}
+		c.Prepare()
+		out = append(out, c)
+	}
+	return out
+}
